@@ -48,7 +48,7 @@ def _c19_post(allcases, soft, tier):
 PLAN['C19'] = dict(
     level='exploration',
     units=_c19_units, post=_c19_post, own_module='C19',
-    key_filter=r'^(asan:|ubsan:|msan:|valgrind:|crash:|hang@|abort:|leak|badfree|output-depends-on-heap-junk|workspace-layout-broken)',
+    key_filter=r'^(asan:|ubsan:|msan:|valgrind:|crash:|hang@|abort:|leak|badfree|output-depends-on-heap-junk|workspace-layout-broken|workspace-accounting-broken)',
     rule='70 % of the cases: lifecycle programs over the computational routines (create -> get_perm_c/sp_preorder -> ?gstrf -> random sequence of ?gstrs, ?gscon, ?gsrfs, ?PivotGrowth, ?QuerySpace, sp_?trsv, matrix copy, ?CompRow_to_CompCol against a stable counting-sort reference, ?GenXtrue/?FillRHS/?Copy_Dense_Matrix with padded arrays -> destroy) with forced exit paths '
          '(singular input, too-small and sufficient caller workspace, injected ?expand failure, size query), each executed twice under different junk fill of fresh library allocations (bitwise equal outputs), ledger empty at the end, no bad free; 30 % of the cases: expert-driver lifecycles (?gssvx / ?gsisx with equilibration, MC64 row permutation, refinement, estimates) ended by a too-short caller workspace of random length, an injected growth failure, a size query or run to completion and re-solved with Fact = FACTORED, same two-execution differential and ledger; '
          'the same programs under MemorySanitizer and valgrind memcheck, plus the C01/C05/C06/C08/C15 workloads under MemorySanitizer and the C06 refactor/re-solve histories and C07 storage variants (capacity walk) under ASan (only memory-class keys count here); every other check of this suite also runs under ASan+UBSan with the ledger; '
